@@ -326,6 +326,45 @@ var specialTokens = func() []string {
 
 func roundTrips(c *seq.Ctx) {
 	i64s := []int64{0, 1, -1, 9, 10, 255, 256, math.MaxInt32, math.MinInt32, math.MaxInt64, math.MinInt64, math.MaxInt64 - 1, math.MinInt64 + 1, 1 << 53, -(1 << 53), 1234567890123456789}
+	// every decimal and binary magnitude (text forms change with the magnitude: unit bands of durations,
+	// digit counts, float-exactness limits), both signs
+	{
+		seen := map[int64]bool{}
+		for _, v := range i64s {
+			seen[v] = true
+		}
+		add := func(v int64) {
+			for _, x := range []int64{v, -v} {
+				if !seen[x] {
+					seen[x] = true
+					i64s = append(i64s, x)
+				}
+			}
+		}
+		p10 := int64(1)
+		for k := 0; k <= 18; k++ {
+			add(p10)
+			add(p10 - 1)
+			add(p10 + 1)
+			add(p10 + p10/2)
+			add(p10*9 + p10/10*9)
+			if k < 18 {
+				p10 *= 10
+			}
+		}
+		for k := uint(1); k < 63; k++ {
+			add(1 << k)
+			add(1<<k - 1)
+			add(1<<k + 1)
+		}
+		for _, u := range []int64{int64(time.Microsecond), int64(time.Millisecond), int64(time.Second), int64(time.Minute), int64(time.Hour), 24 * int64(time.Hour)} {
+			add(u)
+			add(u - 1)
+			add(u + 1)
+			add(u + u/2)
+			add(u*59 + u/1000*999)
+		}
+	}
 	u64s := []uint64{0, 1, 9, 10, math.MaxUint32, math.MaxInt64, math.MaxInt64 + 1, math.MaxUint64, math.MaxUint64 - 1, 1 << 53}
 	type codec struct {
 		name string
